@@ -297,10 +297,11 @@ func runEntries(r *Rng, o *Out, st *hrs.Strs, nWorlds int, hist Hist, caseJSON m
 			}
 			// many outputs to one of five addresses: make them pairwise distinct by their hours / coins
 			seen := map[coin.TransactionOutput]bool{}
-			for i := range touts {
-				for seen[touts[i]] {
+			last := len(touts) - 1
+			for i := 0; i < last; i++ {
+				for k := 0; (seen[touts[i]] || touts[i] == touts[last]) && k < 100000; k++ {
 					touts[i].Coins += unit
-					touts[len(touts)-1].Coins -= unit
+					touts[last].Coins -= unit
 				}
 				seen[touts[i]] = true
 			}
